@@ -187,6 +187,32 @@ fn text_cases() -> Vec<TextCase> {
             out.push(TextCase { name: format!("decimal {}", body), text: q1(&body), expect: Some((1, vec![("rz".to_string(), vec![0], k, d)])), tol: 1e-6 });
         }
     }
+    // mixed arguments: a bare-decimal term plus or minus a symbolic pi term (seed c14-i: the two parts are converted
+    // separately and added) — every reduced k1/d1 written in decimal radians x every k2*pi/d2, in the three spellings
+    // dec + sym, sym + dec, sym - dec; the parsed phase must be the sum to 1e-6
+    for d1 in [1i64, 2, 3, 4, 5, 8, 16] {
+        for k1 in 1..(2 * d1) {
+            if num::integer::gcd(k1, d1) != 1 {
+                continue;
+            }
+            let rad = std::f64::consts::PI * (k1 as f64) / (d1 as f64);
+            for d2 in [1i64, 2, 3, 4, 7, 8] {
+                for k2 in 1..(2 * d2) {
+                    if num::integer::gcd(k2, d2) != 1 {
+                        continue;
+                    }
+                    let sym = if d2 == 1 { format!("{}*pi", k2) } else { format!("{}*pi/{}", k2, d2) };
+                    for (body, n, d) in [
+                        (format!("rz({:.12} + {}) q[0];", rad, sym), k1 * d2 + k2 * d1, d1 * d2),
+                        (format!("rz({} + {:.12}) q[0];", sym, rad), k1 * d2 + k2 * d1, d1 * d2),
+                        (format!("rz({} - {:.12}) q[0];", sym, rad), k2 * d1 - k1 * d2, d1 * d2),
+                    ] {
+                        out.push(TextCase { name: format!("mixed {}", body), text: q1(&body), expect: Some((1, vec![("rz".to_string(), vec![0], n, d)])), tol: 1e-6 });
+                    }
+                }
+            }
+        }
+    }
     // register declarations without any statement, or with a gate definition only: the qubit count is the sum of all registers
     for comp in [vec![2usize, 3], vec![1, 1], vec![3, 1, 2], vec![1, 4], vec![2, 2, 2]] {
         let n: usize = comp.iter().sum();
@@ -264,8 +290,8 @@ fn judge_text(st: &mut Stats, tc: &TextCase) {
                             g.phase == quizx::phase::Phase::new(Rational64::new(*num, *den))
                         } else {
                             let want = *num as f64 / *den as f64;
-                            let d = (g.phase.to_f64() - want).abs();
-                            d.min((d - 2.0).abs()) <= tc.tol
+                            let d = (g.phase.to_f64() - want).rem_euclid(2.0);
+                            d.min(2.0 - d) <= tc.tol
                         };
                         if g.t.qasm_name() != n || g.qs != *qs || !ph_ok {
                             bad = Some(format!("gate: parsed {:?}, expected {} {:?} phase {}/{}", g, n, qs, num, den));
